@@ -324,7 +324,8 @@ func propEviction(c *Case) {
 			}
 
 			// restoring entries that are all there already (the cache's own dump) changes nothing
-			if c.Weighted("restore-own-dump", 4, 1) == 1 {
+			// (a restored entry has its key, value and expiry; whether it keeps its usage counter is not stated)
+			if strategy == cache.EvictMostExpired && c.Weighted("restore-own-dump", 3, 1) == 1 {
 				var buf bytes.Buffer
 
 				nd, derr := be.Dump(&buf)
